@@ -707,3 +707,89 @@ def c15_r12(ctx):
         ctx.ob(f, not bad, "estimate_size() grows with every estimate it is computed from", detail="; ".join(bad[:3]))
     if n < 8:
         raise AnalysisError("only %d estimate_size methods found" % n)
+
+
+LAZY_BUILTINS = ("map", "filter", "zip", "iter", "reversed", "enumerate")
+MUTATING_METHODS = ("append", "extend", "add", "update", "insert", "pop", "remove", "clear", "setdefault", "discard", "sort", "popitem")
+
+
+def _is_lazy(e):
+    return isinstance(e, ast.GeneratorExp) or (isinstance(e, ast.Call) and isinstance(e.func, ast.Name) and e.func.id in LAZY_BUILTINS)
+
+
+@rule("C15", "R13", "K9", "long-lived state is neither a one-shot iterator nor a default object shared between calls",
+      min_instances=1, also=("C19", "C01", "C11"),
+      clause="(1) No attribute is assigned a generator expression or a map()/filter()/zip()/iter() object, and no such object is passed to a "
+             "project class's constructor parameter that the constructor stores as it is: a query rebuilt with map(fn, self.qs) works once "
+             "and is empty the second time it is asked for a matcher (second segment, second search).  (2) A parameter whose default is a "
+             "mutable object ([] {} set() ...) is not mutated in the function: the default is created once per process, so results of one "
+             "call leak into the next.")
+def c15_r13(ctx):
+    prog = ctx.prog
+    C = calls_of(prog)
+    probe = ast.parse("class K:\n    def __init__(self, qs):\n        self.qs = map(str, qs)\n    def f(self, seen=set()):\n        seen.add(1)\n")
+    pf = [n for n in ast.walk(probe) if isinstance(n, ast.FunctionDef)]
+    if not any(isinstance(st, ast.Assign) and _is_lazy(st.value) for st in ast.walk(pf[0])):
+        raise AnalysisError("C15-R13 detector does not match its own positive example")
+    n = 0
+    for f in prog.functions.values():
+        if f.module.name.startswith(("whoosh.lang", "whoosh.support")):
+            continue
+        n += 1
+        # (1a) attribute := lazy iterator
+        for st in ast.walk(f.node):
+            if isinstance(st, ast.Assign) and _is_lazy(st.value) and any(isinstance(t, ast.Attribute) for t in st.targets):
+                ctx.saw(f)
+                ctx.ob(f, False, "`%s` does not store a one-shot iterator" % norm.stmt_text(st)[:70],
+                       detail="the attribute can be iterated once; every later reader finds it empty", loc=ctx.nodeloc(f, st))
+        # (1b) lazy iterator handed to a constructor parameter that is stored as it is
+        for c in norm.calls_in(f.node):
+            lazy_args = [a for a in list(c.args) + [k.value for k in c.keywords] if _is_lazy(a)]
+            if not lazy_args:
+                continue
+            target = None
+            if norm.canon(c.func) in ("self.__class__", "type(self)") and f.cls is not None:
+                target = prog.lookup(f.cls, "__init__")
+            else:
+                r = C.resolve(f, c)
+                if r.kind == "exact" and len(r.targets) == 1 and r.targets[0].name == "__init__":
+                    target = r.targets[0]
+            if target is None:
+                continue
+            m, probs = bind_args(c, target)
+            if not m:
+                continue
+            for p, a in m.items():
+                if not _is_lazy(a):
+                    continue
+                stored = [st for st in ast.walk(target.node) if isinstance(st, ast.Assign) and isinstance(st.value, ast.Name) and st.value.id == p
+                          and any(isinstance(t, ast.Attribute) and isinstance(t.value, ast.Name) and t.value.id == "self" for t in st.targets)]
+                if stored:
+                    ctx.saw(f)
+                    ctx.ob(f, False, "%s is given a list, not a one-shot iterator, for `%s`" % (target.short, p),
+                           detail="%s stores the argument as it is (%s); %s can be consumed only once" % (
+                               target.short, norm.stmt_text(stored[0]), norm.canon(a)[:50]), loc=ctx.nodeloc(f, c))
+        # (2) mutable default mutated
+        a = f.node.args
+        pos = [x.arg for x in a.args]
+        defaults = dict(zip(pos[len(pos) - len(a.defaults):], a.defaults))
+        for k_, d_ in zip(a.kwonlyargs, a.kw_defaults):
+            if d_ is not None:
+                defaults[k_.arg] = d_
+        for p, d in defaults.items():
+            mutable = isinstance(d, (ast.List, ast.Dict, ast.Set)) or (
+                isinstance(d, ast.Call) and isinstance(d.func, ast.Name) and d.func.id in ("set", "list", "dict", "defaultdict", "bytearray", "array"))
+            if not mutable:
+                continue
+            rebinds = any(isinstance(x, ast.Name) and x.id == p and isinstance(x.ctx, ast.Store) for x in ast.walk(f.node))
+            muts = [c for c in norm.calls_in(f.node) if isinstance(c.func, ast.Attribute) and c.func.attr in MUTATING_METHODS
+                    and isinstance(c.func.value, ast.Name) and c.func.value.id == p]
+            subs = [s_ for s_ in ast.walk(f.node) if isinstance(s_, ast.Subscript) and isinstance(s_.ctx, (ast.Store, ast.Del))
+                    and isinstance(s_.value, ast.Name) and s_.value.id == p]
+            aug = [s_ for s_ in ast.walk(f.node) if isinstance(s_, ast.AugAssign) and isinstance(s_.target, ast.Name) and s_.target.id == p]
+            if (muts or subs or aug) and not rebinds:
+                ctx.saw(f)
+                ctx.ob(f, False, "the mutable default of `%s` is not mutated" % p,
+                       detail="the default object is shared by all calls of %s: what one call adds, the next call sees" % f.short,
+                       loc=ctx.nodeloc(f, (muts or subs or aug)[0]))
+    ctx.ob("whole program", n > 2000, "%d functions scanned for one-shot iterators kept as state and mutated default arguments" % n)
